@@ -10,8 +10,11 @@
     A slot that was never collected in this process prints as a zero row: [None].
 
     The slots of the collector are a numpy array of [saveStep] columns; they are modelled as a function
-    of the column index.  Every index used by the driver is below [saveStep] ([k mod S], [range(.., min(S, ..))],
-    [range(ti mod S)]), so no access is out of range. *)
+    of the column index.  Every index used by the driver is below [saveStep] ([k mod S], [0],
+    [range(startPrint, saveStep)], [range(startPrint, ti mod S + 1)]), so no access is out of range.
+
+    The model mirrors the tree after b2d9318: [startPrint] is the first slot of the current save window whose
+    row is not yet in phiDat.txt ([ti mod S + 1] at start-up, 1 after a save). *)
 From Coq Require Import List Arith Lia PeanoNat Bool Permutation.
 Import ListNotations.
 
@@ -47,18 +50,18 @@ Definition ck_iter (st : ck_st) : ck_st :=
   let k := ti + 1 in
   let sl := ck_collect k f' (ck_slots st) in
   if ti mod S =? S - 1                                  (* ti % saveStep == saveStepCut *)
-  then ck_mk k f' (ck_nloops st + 1) 0 sl
+  then (* print getLine(0), then range(startPrint, saveStep); startPrint = 1 *)
+       ck_mk k f' (ck_nloops st + 1) 1 sl
              (ck_files st ++ [(k, f')])
-             (ck_lines st ++ ck_print sl (ck_sp st) (Nat.min S (ti + 1)))
+             (ck_lines st ++ sl 0 :: ck_print sl (ck_sp st) S)
   else ck_mk k f' (ck_nloops st + 1) (ck_sp st) sl (ck_files st) (ck_lines st).
 
-(** after the loop: if ti % saveStep != 0: for i in range(1, ti % saveStep + 1)  (repaired in f107601;
-    the original range(ti % saveStep) repeated the row of the last save and dropped the final one) *)
+(** after the loop: if ti % saveStep != 0: for i in range(startPrint, ti % saveStep + 1) *)
 Definition ck_final (st : ck_st) : ck_st :=
   if ck_ti st mod S =? 0 then st
   else ck_mk (ck_ti st) (ck_fld st) (ck_nloops st) (ck_sp st) (ck_slots st)
              (ck_files st ++ [(ck_ti st, ck_fld st)])
-             (ck_lines st ++ ck_print (ck_slots st) 1 (ck_ti st mod S + 1)).
+             (ck_lines st ++ ck_print (ck_slots st) (ck_sp st) (ck_ti st mod S + 1)).
 
 (** while ti < tN and timeForLoop: n = tN - ti iterations at most; [orc] = successive values of the
     wall-clock test ([] = never stops) *)
@@ -77,18 +80,17 @@ Fixpoint ck_loop (n : nat) (orc : list bool) (st : ck_st) : ck_st :=
 Definition ck_run (tN : nat) (orc : list bool) (st : ck_st) : ck_st :=
   ck_final (ck_loop (tN - ck_ti st) orc st).
 
-(** a new simulation: t = 0, collect, save grid_000000, print line 0;  startPrint = max(0, 0 % saveStep) *)
+(** a new simulation: t = 0, collect, save grid_000000, print line 0;  startPrint = 0 % saveStep + 1 *)
 Definition ck_fresh (f0 : F) : ck_st :=
   let sl := ck_collect 0 f0 (fun _ => None) in
-  ck_mk 0 f0 0 0 sl [(0, f0)] [sl 0].
+  ck_mk 0 f0 0 1 sl [(0, f0)] [sl 0].
 
 (** a restart from the checkpoint (k, f): ti = t // dt, collect, nothing saved or printed;
-    startPrint = max(0, ti % saveStep) *)
+    startPrint = ti % saveStep + 1 *)
 Definition ck_resume (k : nat) (f : F) : ck_st :=
-  ck_mk k f 0 (k mod S) (ck_collect k f (fun _ => None)) [] [].
+  ck_mk k f 0 (k mod S + 1) (ck_collect k f (fun _ => None)) [] [].
 
-(** the checkpoint picked by setupFromFile: the largest time (numeric reading; see FileNames.v for the
-    lexicographic [max] of the file names) *)
+(** the checkpoint picked by setupFromFile: the largest time (CkNames.v: max by the time key of the names) *)
 Fixpoint ck_latest (fs : list (nat * F)) : option (nat * F) :=
   match fs with
   | [] => None
@@ -395,7 +397,9 @@ Proof.
     + unfold ck_sim. cbn [ck_ti ck_fld ck_sp ck_slots]. repeat split.
       intros i Hi. apply Hcol. left. exact Hi.
     + eexists. eexists. cbn [ck_files ck_lines]. repeat split; try reflexivity.
-      f_equal. apply ck_print_ext. intros i Hi. symmetry. apply Hcol. right. split; [exact E|lia].
+      f_equal. f_equal.
+      * symmetry. apply Hcol. right. split; [exact E|lia].
+      * apply ck_print_ext. intros i Hi. symmetry. apply Hcol. right. split; [exact E|lia].
   - split.
     + unfold ck_sim. cbn [ck_ti ck_fld ck_sp ck_slots]. repeat split.
       intros i Hi. apply Hcol. left. exact Hi.
@@ -419,7 +423,7 @@ Lemma ck_sim_final st st' : ck_sim st st' ->
   exists X Y, ck_files (ck_final st) = ck_files st ++ X /\ ck_files (ck_final st') = ck_files st' ++ X /\
               ck_lines (ck_final st) = ck_lines st ++ Y /\ ck_lines (ck_final st') = ck_lines st' ++ Y.
 Proof.
-  intros [Hti [Hf [Hsp Hsl]]]. unfold ck_final. rewrite <- Hti, <- Hf.
+  intros [Hti [Hf [Hsp Hsl]]]. unfold ck_final. rewrite <- Hti, <- Hf, <- Hsp.
   destruct (ck_ti st mod S =? 0).
   - exists [], []. rewrite !app_nil_r. repeat split; reflexivity.
   - eexists. eexists. cbn [ck_files ck_lines]. repeat split; try reflexivity.
@@ -441,7 +445,7 @@ Proof.
   induction j as [|j IH]; intros st H; cbn [ck_steps]; [exact H|]. apply IH. apply ck_iter_last_ok.
 Qed.
 
-Lemma ck_steps_sp0 j : forall st, ck_sp st = 0 -> ck_sp (ck_steps j st) = 0.
+Lemma ck_steps_sp1 j : forall st, ck_sp st = 1 -> ck_sp (ck_steps j st) = 1.
 Proof.
   induction j as [|j IH]; intros st H; cbn [ck_steps]; [exact H|]. apply IH.
   unfold ck_iter. destruct (_ =? _); cbn [ck_sp]; [reflexivity|exact H].
@@ -476,7 +480,7 @@ Proof.
   assert (TN : ck_ti sN = N) by (unfold sN; rewrite ck_steps_ti; reflexivity).
   assert (FN : ck_fld sN = ck_pow N f0) by (unfold sN; rewrite ck_steps_fld; reflexivity).
   assert (E1 : ck_final sN = sN) by (unfold ck_final; rewrite TN, HN; reflexivity).
-  assert (SP : ck_sp sN = 0) by (apply ck_steps_sp0; reflexivity).
+  assert (SP : ck_sp sN = 1) by (apply ck_steps_sp1; reflexivity).
   assert (LO : ck_last_ok sN) by (apply ck_steps_last_ok, ck_fresh_last_ok).
   assert (SIM : ck_sim sN (ck_resume N (ck_pow N f0))).
   { unfold ck_sim. cbn [ck_resume ck_ti ck_fld ck_sp ck_slots]. rewrite TN, FN, SP, HN.
@@ -529,9 +533,9 @@ Proof.
 Qed.
 
 (** a whole window: S iterations from a save step append one checkpoint and the rows of the window *)
-Lemma ck_window_full w st f0 : ck_ti st = w * S -> ck_fld st = ck_pow (w * S) f0 -> ck_sp st = 0 ->
+Lemma ck_window_full w st f0 : ck_ti st = w * S -> ck_fld st = ck_pow (w * S) f0 -> ck_sp st = 1 ->
   let st' := ck_steps S st in
-  ck_lines st' = ck_lines st ++ ck_window f0 w /\ ck_sp st' = 0 /\
+  ck_lines st' = ck_lines st ++ ck_window f0 w /\ ck_sp st' = 1 /\
   ck_ti st' = w * S + S /\ ck_fld st' = ck_pow (w * S + S) f0.
 Proof.
   intros Hti Hf Hsp. cbv zeta.
@@ -543,13 +547,10 @@ Proof.
   unfold ck_iter. rewrite T, ck_mod_in_window, Nat.eqb_refl by lia.
   cbn [ck_lines ck_sp]. repeat split; try lia.
   - rewrite I2, I3, Hsp. f_equal.
-    replace (Nat.min S (w * S + (S - 1) + 1)) with S by lia.
-    unfold ck_print. rewrite Nat.sub_0_r. unfold ck_window.
-    assert (Hseq : seq 0 S = 0 :: seq 1 (S - 1)).
-    { destruct S as [|s]; [lia|]. cbn [seq]. rewrite Nat.sub_succ, Nat.sub_0_r. reflexivity. }
+    unfold ck_print, ck_window.
     assert (HM : (w * S + (S - 1) + 1) mod S = 0).
     { replace (w * S + (S - 1) + 1) with (0 + (w + 1) * S) by lia. rewrite Nat.mod_add by lia. apply Nat.mod_0_l. lia. }
-    rewrite Hseq. cbn [map]. f_equal.
+    f_equal.
     + unfold ck_collect. rewrite HM. cbn [Nat.eqb]. unfold ck_L. rewrite Fd, Hf. f_equal.
       apply f_equal2; [lia|]. f_equal.
       rewrite <- ck_pow_succ, <- ck_pow_add. f_equal. lia.
@@ -561,7 +562,7 @@ Qed.
 
 Theorem ck_fresh_rows_aligned q f0 :
   let st := ck_steps (q * S) (ck_fresh f0) in
-  ck_lines st = ck_rows_spec f0 q /\ ck_sp st = 0 /\ ck_ti st = q * S /\ ck_fld st = ck_pow (q * S) f0.
+  ck_lines st = ck_rows_spec f0 q /\ ck_sp st = 1 /\ ck_ti st = q * S /\ ck_fld st = ck_pow (q * S) f0.
 Proof.
   induction q as [|q IH]; cbv zeta.
   - cbn [Nat.mul ck_steps ck_fresh ck_lines ck_sp ck_ti ck_fld ck_pow]. unfold ck_rows_spec. cbn [seq flat_map].
@@ -625,7 +626,7 @@ Proof.
   unfold ck_final. rewrite Tr, ck_mod_in_window by exact Hr.
   destruct (Nat.eqb_spec r 0) as [E|NE].
   - rewrite W2, I1, E. cbn [seq map]. rewrite app_nil_r. reflexivity.
-  - cbn [ck_lines]. rewrite W2, I1. f_equal. unfold ck_print.
+  - cbn [ck_lines]. rewrite W2, I1, W3, I2. f_equal. unfold ck_print.
     replace (r + 1 - 1) with r by lia.
     rewrite <- (ck_map_shift (ck_L f0) (q * S) r 1).
     apply map_ext_in. intros i Hi. apply in_seq in Hi.
@@ -665,6 +666,241 @@ Proof.
   rewrite <- E, ck_run_rows_any, ck_count_nil. apply ck_rows_spec_any_perm.
 Qed.
 
+(** ** any number of restarts, stop points anywhere (tree after b2d9318) *)
+
+(** invariant of a run inside a history: [rows] = everything printed so far (earlier runs and this one).
+    With r = ti mod S and base = ti - r: the rows of the times below base + startPrint are printed, each once;
+    the slots startPrint..r hold the rows of the times base + startPrint .. ti, not yet printed. *)
+Definition ck_rows_inv (f0 : F) (st : ck_st) (rows : list ck_line) : Prop :=
+  ck_fld st = ck_pow (ck_ti st) f0 /\
+  1 <= ck_sp st <= ck_ti st mod S + 1 /\
+  (forall j, ck_sp st <= j <= ck_ti st mod S -> ck_slots st j = ck_L f0 (ck_ti st - ck_ti st mod S + j)) /\
+  Permutation rows (map (ck_L f0) (seq 0 (ck_ti st - ck_ti st mod S + ck_sp st))).
+
+Lemma ck_rows_inv_iter f0 prev st :
+  ck_rows_inv f0 st (prev ++ ck_lines st) -> ck_rows_inv f0 (ck_iter st) (prev ++ ck_lines (ck_iter st)).
+Proof.
+  intros [Hf [Hsp [Hsl Hp]]].
+  pose proof (Nat.mod_upper_bound (ck_ti st) S ltac:(lia)) as Ur.
+  pose proof (Nat.mod_le (ck_ti st) S ltac:(lia)) as Lr.
+  unfold ck_rows_inv. rewrite ck_iter_ti, ck_iter_fld.
+  assert (Hf' : step (ck_fld st) = ck_pow (ck_ti st + 1) f0) by (rewrite Hf, ck_pow_succ; reflexivity).
+  destruct (ck_mod_succ (ck_ti st)) as [[M1 M2]|[M1 M2]]; rewrite M1.
+  - (* a save step *)
+    unfold ck_iter. rewrite M2, Nat.eqb_refl. cbn [ck_sp ck_slots ck_lines].
+    split; [exact Hf'|]. split; [lia|]. split; [intros j Hj; lia|].
+    set (base := ck_ti st - ck_ti st mod S) in *.
+    assert (Eb : ck_ti st + 1 = base + S) by (unfold base; lia).
+    replace (ck_ti st + 1 - 0 + 1) with (base + ck_sp st + (S - ck_sp st) + 1) by lia.
+    rewrite (seq_app (base + ck_sp st + (S - ck_sp st)) 1), (seq_app (base + ck_sp st) (S - ck_sp st)), !map_app.
+    cbn [seq map]. rewrite <- app_assoc.
+    rewrite app_assoc. apply Permutation_app; [exact Hp|].
+    assert (E0 : ck_collect (ck_ti st + 1) (step (ck_fld st)) (ck_slots st) 0 = ck_L f0 (base + S)).
+    { unfold ck_collect. rewrite M1. cbn [Nat.eqb]. unfold ck_L. rewrite Hf', Eb. reflexivity. }
+    assert (EX : ck_print (ck_collect (ck_ti st + 1) (step (ck_fld st)) (ck_slots st)) (ck_sp st) S
+                 = map (ck_L f0) (seq (0 + (base + ck_sp st)) (S - ck_sp st))).
+    { unfold ck_print. replace (0 + (base + ck_sp st)) with (base + ck_sp st) by lia.
+      rewrite <- (ck_map_shift (ck_L f0) base (S - ck_sp st) (ck_sp st)).
+      apply map_ext_in. intros j Hj. apply in_seq in Hj. unfold ck_collect. rewrite M1.
+      destruct (Nat.eqb_spec j 0) as [->|_]; [lia|]. apply Hsl. lia. }
+    rewrite E0, EX.
+    replace (0 + (base + ck_sp st + (S - ck_sp st))) with (base + S) by lia.
+    apply Permutation_cons_append.
+  - (* inside a save window *)
+    unfold ck_iter. destruct (Nat.eqb_spec (ck_ti st mod S) (S - 1)) as [E|_]; [lia|].
+    cbn [ck_sp ck_slots ck_lines].
+    split; [exact Hf'|]. split; [lia|].
+    replace (ck_ti st + 1 - (ck_ti st mod S + 1)) with (ck_ti st - ck_ti st mod S) by lia.
+    split; [|exact Hp].
+    intros j Hj. unfold ck_collect. rewrite M1.
+    destruct (Nat.eqb_spec j (ck_ti st mod S + 1)) as [->|NE].
+    + unfold ck_L. rewrite Hf'. f_equal. f_equal; [lia|]. f_equal. f_equal. lia.
+    + apply Hsl. lia.
+Qed.
+
+Lemma ck_rows_inv_steps f0 prev j : forall st,
+  ck_rows_inv f0 st (prev ++ ck_lines st) -> ck_rows_inv f0 (ck_steps j st) (prev ++ ck_lines (ck_steps j st)).
+Proof.
+  induction j as [|j IH]; intros st H; cbn [ck_steps]; [exact H|]. apply IH. apply ck_rows_inv_iter. exact H.
+Qed.
+
+Lemma ck_rows_inv_final f0 prev st :
+  ck_rows_inv f0 st (prev ++ ck_lines st) ->
+  Permutation (prev ++ ck_lines (ck_final st)) (map (ck_L f0) (seq 0 (ck_ti st + 1))).
+Proof.
+  intros [Hf [Hsp [Hsl Hp]]].
+  pose proof (Nat.mod_le (ck_ti st) S ltac:(lia)) as Lr.
+  unfold ck_final. destruct (Nat.eqb_spec (ck_ti st mod S) 0) as [E|NE].
+  - rewrite E in *. assert (ck_sp st = 1) as E1 by lia. rewrite E1, Nat.sub_0_r in Hp. exact Hp.
+  - cbn [ck_lines]. set (base := ck_ti st - ck_ti st mod S) in *.
+    replace (ck_ti st + 1) with (base + ck_sp st + (ck_ti st mod S + 1 - ck_sp st)) by (unfold base; lia).
+    rewrite seq_app, map_app, app_assoc. apply Permutation_app; [exact Hp|].
+    unfold ck_print. replace (0 + (base + ck_sp st)) with (base + ck_sp st) by lia.
+    rewrite <- (ck_map_shift (ck_L f0) base _ (ck_sp st)).
+    erewrite map_ext_in; [apply Permutation_refl|].
+    intros j Hj. apply in_seq in Hj. apply Hsl. lia.
+Qed.
+
+Lemma ck_rows_inv_fresh f0 : ck_rows_inv f0 (ck_fresh f0) ([] ++ ck_lines (ck_fresh f0)).
+Proof.
+  unfold ck_rows_inv, ck_fresh. cbn [ck_ti ck_fld ck_sp ck_slots ck_lines app ck_pow].
+  rewrite Nat.mod_0_l by lia. cbn [Nat.sub Nat.add seq map].
+  split; [reflexivity|]. split; [lia|]. split; [intros j Hj; lia|].
+  unfold ck_collect, ck_L. rewrite Nat.mod_0_l by lia. cbn [Nat.eqb ck_pow]. apply Permutation_refl.
+Qed.
+
+Lemma ck_rows_inv_resume f0 prev N :
+  Permutation prev (map (ck_L f0) (seq 0 (N + 1))) ->
+  ck_rows_inv f0 (ck_resume N (ck_pow N f0)) (prev ++ ck_lines (ck_resume N (ck_pow N f0))).
+Proof.
+  intros H. unfold ck_rows_inv, ck_resume. cbn [ck_ti ck_fld ck_sp ck_slots ck_lines].
+  pose proof (Nat.mod_le N S ltac:(lia)) as Lr.
+  split; [reflexivity|]. split; [lia|]. split; [intros j Hj; lia|].
+  rewrite app_nil_r. replace (N - N mod S + (N mod S + 1)) with (N + 1) by lia. exact H.
+Qed.
+
+(** one run of a history: from an invariant start state, rows / time / field at the end *)
+Lemma ck_run_rows_inv f0 prev tN orc st :
+  ck_rows_inv f0 st (prev ++ ck_lines st) ->
+  Permutation (prev ++ ck_lines (ck_run tN orc st)) (map (ck_L f0) (seq 0 (ck_ti (ck_run tN orc st) + 1))).
+Proof.
+  intros H. rewrite ck_run_unfold, ck_final_ti.
+  apply ck_rows_inv_final. apply ck_rows_inv_steps. exact H.
+Qed.
+
+Lemma ck_latest_of_spec folder T f0 :
+  (forall k g, In (k, g) folder -> g = ck_pow k f0 /\ k <= T) -> In (T, ck_pow T f0) folder ->
+  ck_latest folder = Some (T, ck_pow T f0).
+Proof.
+  intros Hall Hin.
+  destruct (ck_latest_some folder) as [k [g E]]; [intros E; rewrite E in Hin; destruct Hin|].
+  destruct (ck_latest_in folder k g E) as [I1 I2].
+  destruct (Hall k g I1) as [-> Hk]. specialize (I2 T _ Hin). assert (k = T) by lia. subst k. exact E.
+Qed.
+
+(** a history: a new simulation, then any number of restarts from the folder; every run ends where its
+    tEnd / wall clock says.  [stops] lists the end points N1 <= N2 <= ... of the runs. *)
+Inductive ck_hist (f0 : F) : ck_st -> list (nat * F) -> list ck_line -> list nat -> Prop :=
+| ck_hist_new tN orc st :
+    st = ck_run tN orc (ck_fresh f0) ->
+    ck_hist f0 st (ck_files st) (ck_lines st) [ck_ti st]
+| ck_hist_restart st0 folder rows stops st1 tN orc st :
+    ck_hist f0 st0 folder rows stops -> ck_restart folder = Some st1 ->
+    st = ck_run tN orc st1 ->
+    ck_hist f0 st (folder ++ ck_files st) (rows ++ ck_lines st) (stops ++ [ck_ti st]).
+
+Definition ck_hist_ok (f0 : F) (st : ck_st) (folder : list (nat * F)) (rows : list ck_line) (stops : list nat) : Prop :=
+  let T := ck_ti st in
+  ck_fld st = ck_pow T f0 /\
+  Permutation rows (map (ck_L f0) (seq 0 (T + 1))) /\
+  (forall k g, In (k, g) folder <-> g = ck_pow k f0 /\ ((k mod S = 0 /\ k <= T) \/ In k stops)) /\
+  (forall N, In N stops -> N <= T) /\ In T stops /\
+  ck_latest folder = Some (T, ck_pow T f0).
+
+Lemma ck_hist_ok_latest f0 st folder stops :
+  ck_fld st = ck_pow (ck_ti st) f0 ->
+  (forall k g, In (k, g) folder <-> g = ck_pow k f0 /\ ((k mod S = 0 /\ k <= ck_ti st) \/ In k stops)) ->
+  (forall N, In N stops -> N <= ck_ti st) -> In (ck_ti st) stops ->
+  ck_latest folder = Some (ck_ti st, ck_pow (ck_ti st) f0).
+Proof.
+  intros Hf Hs Hle Hin. apply ck_latest_of_spec.
+  - intros k g H. apply Hs in H. destruct H as [-> [[_ H]|H]]; split; try reflexivity; [exact H|apply Hle; exact H].
+  - apply Hs. split; [reflexivity|right; exact Hin].
+Qed.
+
+(** [restart_equiv] in full: for every save interval >= 1 and every history (any number of restarts, stop
+    points anywhere) the final time and field are those of the uninterrupted run, the rows of all runs
+    together are the times 0..T each exactly once, the folder holds the checkpoints of 0, the multiples of
+    saveStep up to T and the stop points, each with the field of its time, and the next restart would resume
+    from (T, field at T) *)
+Theorem ck_hist_spec f0 st folder rows stops :
+  ck_hist f0 st folder rows stops -> ck_hist_ok f0 st folder rows stops.
+Proof.
+  induction 1 as [tN orc st Est|st0 folder rows stops st1 tN orc st H IH Hr Est].
+  - (* a new simulation *)
+    pose proof (ck_run_state tN orc (ck_fresh f0)) as [T1 F1]. rewrite <- Est in T1, F1.
+    cbn [ck_fresh ck_ti ck_fld] in T1, F1. unfold ck_stop in T1. rewrite Nat.sub_0_r, Nat.add_0_l in *.
+    assert (Hfld : ck_fld st = ck_pow (ck_ti st) f0) by (rewrite F1, T1; reflexivity).
+    assert (Hspec : forall k g, In (k, g) (ck_files st) <->
+                      g = ck_pow k f0 /\ ((k mod S = 0 /\ k <= ck_ti st) \/ In k [ck_ti st])).
+    { intros k g. rewrite Est at 1. rewrite ck_fresh_files_spec. rewrite <- T1. cbn [In]. split.
+      - intros [Hg [Hk [Hm|Hm]]]; (split; [exact Hg|]).
+        + left. split; assumption.
+        + right. left. symmetry. exact Hm.
+      - intros [Hg [[Hm Hk]|[Hm|[]]]]; (split; [exact Hg|]).
+        + split; [exact Hk|left; exact Hm].
+        + split; [lia|right; symmetry; exact Hm]. }
+    unfold ck_hist_ok. cbv zeta. split; [exact Hfld|]. split.
+    + pose proof (ck_run_rows_inv f0 [] tN orc (ck_fresh f0) (ck_rows_inv_fresh f0)) as P.
+      rewrite <- Est in P. exact P.
+    + split; [exact Hspec|]. split; [intros N [<-|[]]; lia|]. split; [left; reflexivity|].
+      apply (ck_hist_ok_latest f0 st (ck_files st) [ck_ti st]); try assumption.
+      * intros N [<-|[]]. lia.
+      * left. reflexivity.
+  - (* a restart *)
+    destruct IH as [F0 [P0 [S0 [L0 [I0 Lat0]]]]].
+    unfold ck_restart in Hr. rewrite Lat0 in Hr. inversion Hr; subst st1; clear Hr.
+    set (N := ck_ti st0) in *.
+    pose proof (ck_run_state tN orc (ck_resume N (ck_pow N f0))) as [T1 F1]. rewrite <- Est in T1, F1.
+    cbn [ck_resume ck_ti ck_fld] in T1, F1. unfold ck_stop in T1.
+    set (j := ck_count (tN - N) orc) in *.
+    assert (Hfld : ck_fld st = ck_pow (ck_ti st) f0) by (rewrite F1, T1, <- ck_pow_add; reflexivity).
+    assert (Hnew : ck_files st = ck_saves N j (ck_pow N f0) ++ ck_final_save (N + j) (ck_pow j (ck_pow N f0))).
+    { rewrite Est, ck_run_files. cbn [ck_resume ck_ti ck_fld ck_files app]. reflexivity. }
+    assert (Hspec : forall k g, In (k, g) (folder ++ ck_files st) <->
+                      g = ck_pow k f0 /\ ((k mod S = 0 /\ k <= ck_ti st) \/ In k (stops ++ [ck_ti st]))).
+    { intros k g. rewrite Hnew, !in_app_iff, S0, ck_saves_spec. unfold ck_final_save. rewrite T1. cbn [In].
+      split.
+      - intros [[Hg [[Hm Hk]|Hs]]|[[H1 [H2 H3]]|H3]].
+        + split; [exact Hg|]. left. split; [exact Hm|lia].
+        + split; [exact Hg|]. right. left. exact Hs.
+        + split; [subst g; rewrite <- ck_pow_add; f_equal; lia|]. left. split; [exact H2|lia].
+        + destruct ((N + j) mod S =? 0); [destruct H3|]. destruct H3 as [H3|[]]. inversion H3; subst.
+          split; [rewrite <- ck_pow_add; reflexivity|]. right. right. left. reflexivity.
+      - intros [Hg [[Hm Hk]|[Hs|[<-|[]]]]].
+        + destruct (Nat.le_gt_cases k N) as [Le|Gt].
+          * left. split; [exact Hg|]. left. split; assumption.
+          * right. left. repeat split; [lia|lia|exact Hm|]. subst g. rewrite <- ck_pow_add. f_equal. lia.
+        + left. split; [exact Hg|]. right. exact Hs.
+        + destruct (Nat.eqb_spec ((N + j) mod S) 0) as [E|NE].
+          * destruct (Nat.eq_dec j 0) as [->|NZ].
+            -- left. split; [exact Hg|]. right. rewrite Nat.add_0_r. exact I0.
+            -- right. left. repeat split; [lia|lia|exact E|]. subst g. rewrite <- ck_pow_add. f_equal. lia.
+          * right. right. left. subst g. rewrite <- ck_pow_add. reflexivity. }
+    assert (Hle : forall M, In M (stops ++ [ck_ti st]) -> M <= ck_ti st).
+    { intros M HM. apply in_app_iff in HM. destruct HM as [HM|[<-|[]]]; [|lia]. specialize (L0 M HM). lia. }
+    unfold ck_hist_ok. cbv zeta. split; [exact Hfld|]. split.
+    + pose proof (ck_run_rows_inv f0 rows tN orc (ck_resume N (ck_pow N f0))
+                    (ck_rows_inv_resume f0 rows N P0)) as P.
+      rewrite <- Est in P. exact P.
+    + split; [exact Hspec|]. split; [exact Hle|]. split; [apply in_app_iff; right; left; reflexivity|].
+      apply (ck_hist_ok_latest f0 st _ (stops ++ [ck_ti st])); try assumption.
+      apply in_app_iff. right. left. reflexivity.
+Qed.
+
+(** the uninterrupted run to the same time: same time and field (its rows are [ck_rows_spec_any], a
+    permutation of the same times, and its checkpoints are those of the history minus the stop points) *)
+Corollary ck_hist_vs_uninterrupted f0 st folder rows stops :
+  ck_hist f0 st folder rows stops ->
+  let stu := ck_run (ck_ti st) [] (ck_fresh f0) in
+  ck_ti stu = ck_ti st /\ ck_fld stu = ck_fld st /\ Permutation rows (ck_lines stu) /\
+  (forall k g, In (k, g) (ck_files stu) -> In (k, g) folder) /\
+  (forall k g, In (k, g) folder -> In (k, g) (ck_files stu) \/ In k stops).
+Proof.
+  intros H. destruct (ck_hist_spec _ _ _ _ _ H) as [F0 [P0 [S0 [L0 [I0 _]]]]]. cbv zeta.
+  pose proof (ck_run_state (ck_ti st) [] (ck_fresh f0)) as [T1 F1].
+  cbn [ck_fresh ck_ti ck_fld] in T1, F1. unfold ck_stop in T1. rewrite Nat.sub_0_r, ck_count_nil in *.
+  split; [exact T1|]. split; [rewrite F1, F0; reflexivity|]. split.
+  - rewrite ck_run_rows_any, ck_count_nil. eapply Permutation_trans; [exact P0|].
+    apply Permutation_sym. apply ck_rows_spec_any_perm.
+  - split; intros k g Hin.
+    + apply ck_fresh_files_spec in Hin. rewrite ck_count_nil in Hin. destruct Hin as [Hg [Hk [Hm| ->]]].
+      * apply S0. split; [exact Hg|]. left. split; assumption.
+      * apply S0. split; [exact Hg|]. right. exact I0.
+    + apply S0 in Hin. destruct Hin as [Hg [[Hm Hk]|Hs]]; [left|right; exact Hs].
+      apply ck_fresh_files_spec. rewrite ck_count_nil. repeat split; [exact Hg|exact Hk|left; exact Hm].
+Qed.
+
 End Driver.
 
 (** time stamps: the driver's t is k*dt (dt a positive integer: the collector indexes an array with
@@ -698,137 +934,15 @@ Definition ck_lines_split_nat (S N T : nat) : list (option nat) :=
   | None => []
   end.
 
-(** since f107601 a new simulation that ends between two save steps prints every row once
-    (saveStep 3, 7 steps); see ck_run_rows_any for the general statement *)
+(** examples (F = nat, step = S): saveStep 3, 7 steps *)
 Example ck_final_window_example :
   ck_lines_unsplit_nat 3 7 = [Some 0; Some 3; Some 1; Some 2; Some 6; Some 4; Some 5; Some 7].
 Proof. vm_compute. reflexivity. Qed.
 
-(** restart from a stop time that is not a multiple of saveStep (saveStep 3, stop after 1 step, continue
-    to 6): the row of the stop time (1) is printed twice and the row of the first save time after the
-    restart (3) is never printed *)
-Theorem ck_restart_lines_refuted :
+(** restarts from stop times that are not multiples of saveStep, the witnesses that were refutations before
+    b2d9318 (then: [0;1;1;2;6;4;5] - row 1 twice, row 3 never - and [0;1;2;-;2;3] - a zero row) *)
+Example ck_restart_unaligned_examples :
   ck_lines_unsplit_nat 3 6 = [Some 0; Some 3; Some 1; Some 2; Some 6; Some 4; Some 5] /\
-  ck_lines_split_nat 3 1 6 = [Some 0; Some 1; Some 1; Some 2; Some 6; Some 4; Some 5].
-Proof. vm_compute. split; reflexivity. Qed.
-
-(** ... and if the restarted run ends before the next save step, it prints the never-collected slots
-    as zero rows (saveStep 4, stop after 2 steps, continue to 3) *)
-Theorem ck_restart_zero_rows_refuted :
-  ck_lines_unsplit_nat 4 3 = [Some 0; Some 1; Some 2; Some 3] /\
-  ck_lines_split_nat 4 2 3 = [Some 0; Some 1; Some 2; None; Some 2; Some 3].
-Proof. vm_compute. split; reflexivity. Qed.
-
-Theorem ck_restart_lines_not_general :
-  ~ (forall S N T, 0 < S -> N <= T -> ck_lines_split_nat S N T = ck_lines_unsplit_nat S T).
-Proof.
-  intros H. specialize (H 3 1 6 ltac:(lia) ltac:(lia)).
-  destruct ck_restart_lines_refuted as [A B]. rewrite A, B in H. discriminate.
-Qed.
-
-(** ** a proposed repair of the restart rows (NOT the code under verification; evidence for DESIGN 9 / the report)
-
-    startPrint becomes "the first slot of the current save window that is not yet in phiDat.txt":
-      startPrint = ti % saveStep + 1            at start-up (new run: 1; restart at N: the slot after N's)
-      at a save:  print slot 0 (the save time) and slots startPrint .. saveStep-1;  startPrint = 1
-      at the end: print slots startPrint .. ti % saveStep
-    [chrono = false] prints slot 0 first (the uninterrupted output is byte-for-byte what the code prints now);
-    [chrono = true] prints it last (rows in chronological order, restart-equivalence as equality of lists). *)
-Section Patch.
-Variables F D : Type.
-Variable step : F -> F.
-Variable diag : F -> D.
-Variable S : nat.
-Variable chrono : bool.
-
-Definition ckp_iter (st : ck_st F D) : ck_st F D :=
-  let ti := ck_ti _ _ st in
-  let f' := step (ck_fld _ _ st) in
-  let k := ti + 1 in
-  let sl := ck_collect F D diag S k f' (ck_slots _ _ st) in
-  if ti mod S =? S - 1
-  then ck_mk _ _ k f' (ck_nloops _ _ st + 1) 1 sl
-             (ck_files _ _ st ++ [(k, f')])
-             (ck_lines _ _ st ++ (if chrono then ck_print D sl (ck_sp _ _ st) S ++ [sl 0]
-                                   else sl 0 :: ck_print D sl (ck_sp _ _ st) S))
-  else ck_mk _ _ k f' (ck_nloops _ _ st + 1) (ck_sp _ _ st) sl (ck_files _ _ st) (ck_lines _ _ st).
-
-Definition ckp_final (st : ck_st F D) : ck_st F D :=
-  if ck_ti _ _ st mod S =? 0 then st
-  else ck_mk _ _ (ck_ti _ _ st) (ck_fld _ _ st) (ck_nloops _ _ st) (ck_sp _ _ st) (ck_slots _ _ st)
-             (ck_files _ _ st ++ [(ck_ti _ _ st, ck_fld _ _ st)])
-             (ck_lines _ _ st ++ ck_print D (ck_slots _ _ st) (ck_sp _ _ st) (ck_ti _ _ st mod S + 1)).
-
-Fixpoint ckp_steps (j : nat) (st : ck_st F D) : ck_st F D :=
-  match j with 0 => st | Datatypes.S j' => ckp_steps j' (ckp_iter st) end.
-
-Definition ckp_fresh (f0 : F) : ck_st F D :=
-  let sl := ck_collect F D diag S 0 f0 (fun _ => None) in
-  ck_mk _ _ 0 f0 0 1 sl [(0, f0)] [sl 0].
-
-Definition ckp_resume (k : nat) (f : F) : ck_st F D :=
-  ck_mk _ _ k f 0 (k mod S + 1) (ck_collect F D diag S k f (fun _ => None)) [] [].
-
-(** a history: new run to the first stop, then restart from the latest checkpoint to each further stop *)
-Fixpoint ckp_segments (stops : list nat) (folder : list (nat * F)) (rows : list (ck_line D))
-  : list (nat * F) * list (ck_line D) :=
-  match stops with
-  | [] => (folder, rows)
-  | T :: more =>
-      match ck_latest F folder with
-      | Some (k, f) =>
-          let st := ckp_final (ckp_steps (T - k) (ckp_resume k f)) in
-          ckp_segments more (folder ++ ck_files _ _ st) (rows ++ ck_lines _ _ st)
-      | None => (folder, rows)
-      end
-  end.
-
-Definition ckp_history (f0 : F) (stops : list nat) : list (nat * F) * list (ck_line D) :=
-  match stops with
-  | [] => ([], [])
-  | T :: more =>
-      let st := ckp_final (ckp_steps T (ckp_fresh f0)) in
-      ckp_segments more (ck_files _ _ st) (ck_lines _ _ st)
-  end.
-End Patch.
-
-Definition ckp_rows_nat (chrono : bool) (S : nat) (stops : list nat) : list (option nat) :=
-  map ck_line_time (snd (ckp_history nat nat Datatypes.S (fun x => x) S chrono 0 stops)).
-
-Fixpoint ck_opt_list_eqb (a b : list (option nat)) : bool :=
-  match a, b with
-  | [], [] => true
-  | Some x :: a', Some y :: b' => (x =? y) && ck_opt_list_eqb a' b'
-  | None :: a', None :: b' => ck_opt_list_eqb a' b'
-  | _, _ => false
-  end.
-
-Definition ck_once (T : nat) (rows : list (option nat)) : bool :=
-  (length rows =? T + 1) &&
-  forallb (fun k => existsb (fun r => match r with Some x => x =? k | None => false end) rows) (seq 0 (T + 1)).
-
-(** all histories with up to two restarts: saveStep 1..6, stop points 0 <= N1 <= N2 <= T <= 12 *)
-Definition ckp_all_histories : list (nat * list nat) :=
-  flat_map (fun S => flat_map (fun T => flat_map (fun N2 => flat_map (fun N1 =>
-     [(S, [T]); (S, [N2; T]); (S, [N1; N2; T])]) (seq 0 (N2 + 1))) (seq 0 (T + 1))) (seq 0 13)) (seq 1 6).
-
-Definition ckp_last (l : list nat) : nat := last l 0.
-
-(** chronological variant: the rows of every such history are exactly 0, 1, ..., T in this order, i.e.
-    equal as lists to those of the uninterrupted run *)
-Theorem ckp_chrono_restart_equiv_bounded :
-  forallb (fun h => ck_opt_list_eqb (ckp_rows_nat true (fst h) (snd h))
-                                    (map Some (seq 0 (ckp_last (snd h) + 1)))) ckp_all_histories = true.
-Proof. vm_compute. reflexivity. Qed.
-
-(** order-preserving variant: every time exactly once in every such history, and the uninterrupted run
-    prints exactly what the current code prints *)
-Theorem ckp_keep_order_restart_equiv_bounded :
-  forallb (fun h => ck_once (ckp_last (snd h)) (ckp_rows_nat false (fst h) (snd h))) ckp_all_histories = true /\
-  forallb (fun h => ck_opt_list_eqb (ckp_rows_nat false (fst h) [ckp_last (snd h)])
-                                    (ck_lines_unsplit_nat (fst h) (ckp_last (snd h)))) ckp_all_histories = true.
-Proof. vm_compute. split; reflexivity. Qed.
-
-(** the same check fails for the current code as soon as a stop point is not a multiple of saveStep *)
-Example ck_current_code_fails_check : ck_once 6 (ck_lines_split_nat 3 1 6) = false.
-Proof. vm_compute. reflexivity. Qed.
+  ck_lines_split_nat 3 1 6 = [Some 0; Some 1; Some 3; Some 2; Some 6; Some 4; Some 5] /\
+  ck_lines_split_nat 4 2 3 = [Some 0; Some 1; Some 2; Some 3].
+Proof. vm_compute. repeat split. Qed.
